@@ -50,6 +50,12 @@ CHECKS.update({
    note="The schedule dimension is empty (no threads in generated code or runtime). Trusted: std DefaultHasher with fixed keys for transcripts."),
 })
 
+CHECKS.update({
+ "C11": dict(level="exploration", design="4/C11", engine="c11 (python driver over the eqlog CLI)", technique="deviation-bounded exhaustive enumeration of source texts around seeds (all layouts, all truncations, all single token edits, pairs in a window) against the real CLI; oracle on exit status and diagnostic well-formedness plus a metamorphic layout clause",
+   text="Around 75 seed files (the repository's 45 error sources and 30 accepted theories) every layout variant (LF/CRLF, trailing newline, blank lines, trailing spaces, tabs, multi-byte characters in comments), every truncation and every deletion/duplication/replacement of a token by every token class (thorough: also pairs of edits in a window of 3) is compiled by the CLI built from the working tree. Each run must end with exit 0 or 1; on 1 the message must name lines inside the file, every excerpt line must equal that input line exactly, carets stay inside the excerpt, and layout changes that move no token must not change class, line numbers or excerpt.",
+   note="Trusted: the harness's own tokenizer (only used to place edits) and the regular expressions describing the diagnostic format. Inputs are valid UTF-8 within the deviation bound; arbitrary byte soup is not explored."),
+})
+
 PENDING = {}
 
 def main():
